@@ -7,9 +7,11 @@ INVARIANT ClassPick
 INVARIANT ClassFold
 INVARIANT ClassFirst
 INVARIANT ClassInvalid
+INVARIANT ClassTwo
 INVARIANT WitnessPrint
 INVARIANT WitnessPick
 INVARIANT WitnessFold
 INVARIANT WitnessInvalid
+INVARIANT WitnessTwo
 INVARIANT DesignWellDefined
 CHECK_DEADLOCK FALSE
